@@ -305,3 +305,8 @@ def check(ctx):
     # ---- R03-l (shared with C07/R07-f, C12/R12-g)
     from .common import waiter_guard
     waiter_guard(ctx, "R03-l", "the delivery loop asks `.done()` only of a waiter that is an asyncio.Future (delivery must not raise on other awaitables)")
+
+    # ---- R03-m an abandonable thread call is really abandonable: the deprecated `cancellable=` spelling reaches the backend (else the
+    # caller stays blocked in its cancelled scope until the thread returns) (shared with C14/R14-e)
+    from .c14 import cancellable_alias
+    cancellable_alias(ctx, "R03-m")
